@@ -55,6 +55,7 @@ class Converter:
         self.sidx = {n: i for i, n in enumerate(self.names)}
         self.xidx = {}
         self.timer_subject = {}
+        self.task_timers = set()     # timers armed together with a task request: the timeout of that request
         self.event_x = {}
 
     def x(self, arn):
@@ -132,6 +133,11 @@ class Converter:
                 cur["raw"].append(t)
                 if e is not None:
                     cur["effects"].append((e, t))
+        for st in out:
+            if any(t[0] == "rpc" for t in st["raw"]):
+                for t in st["raw"]:
+                    if t[0] == "set_timer" and t[3] not in IGNORED_TIMERS:
+                        self.task_timers.add(t[2])
         return out
 
     def trigger_term(self, st):
@@ -184,6 +190,8 @@ class Converter:
                 n = timers[0][2] if timers else 0
             if k == "deliver":
                 inp = "IDeliver %d %s %d" % (v, d, n)
+            elif k == "fire" and v in self.task_timers and not any(t[0] == "hist" and t[3].endswith("TimedOut") for e, t in effs):
+                inp = "IExpire %d" % v       # the execution deadline, not the task's own TimeoutSeconds
             elif k == "fire":
                 inp = "IFire %d %s %d" % (v, d, n)
             elif k == "worker":
